@@ -133,7 +133,9 @@ def matches(obs, pred):
 def run_cases(progs, preds, fronts=("c",), shells=("bash", "brush")):
     """returns list of dict(id, script, obs={(shell,front): observation})"""
     def one(p):
-        script = Renderer(p["P"]).script(p["root"])
+        rr = Renderer(p["P"])
+        rr.eval_as_source = bool(p.get("src"))
+        script = rr.script(p["root"])
         obs = {}
         for sh in shells:
             for fr in fronts:
